@@ -48,8 +48,9 @@ func (p *Parser) Parse() (ast.Tree, error) {
 		case next.Is(token.HASH):
 			comment := p.parseComment()
 			switch {
-			case p.next().Is(token.TASK):
-				// The comment was a tasks' docstring
+			case p.next().Is(token.TASK) && comment.Text != "":
+				// The comment was a tasks' docstring (an empty '#' line documents nothing,
+				// it stays a comment of its own so that formatting keeps it where it is)
 				task, err := p.parseTask(comment)
 				if err != nil {
 					return tree, err
